@@ -203,7 +203,7 @@ class FastLenRel:
         if not is_sym(N):
             return smooth_prev(N) if self.direction == "prev" else smooth_next(N)
         cache = ctx.__dict__.setdefault("pure_cache", {})
-        key = (self.qn, V.Z(N).get_id())
+        key = (self.qn, V.Z(N).sexpr())
         if key in cache:           # a pure function: equal arguments give the same result
             return cache[key]
         r = ctx.fresh("fastlen", "int")
